@@ -183,8 +183,18 @@ template <class T> static bool exec_buf_t(Ctx &c, const Op &op) {
         BufObj<T> *dst = pick(v, op.a);
         if (!dst || !simrt::heap_huge_available()) { c.skipped = true; return true; }
         static const unsigned SH[] = {32, 31, 33};
-        const size_t n = ((size_t)1 << SH[(op.b >> 5) % 3]) + op.b % 24;
-        char e[48]; std::snprintf(e, sizeof e, "dst=%c,2^%u+%u", cl(dst), SH[(op.b >> 5) % 3], (unsigned)(op.b % 24)); note_sig<T>(c, op, e);
+        // a fourth family: counts whose byte size cannot be represented at all, or that no machine can serve ((n + 1) * sizeof(T) wraps around, or
+        // exceeds PTRDIFF_MAX). The request must be refused - std::bad_alloc (std::bad_array_new_length is one) - and leave a valid buffer behind.
+        const bool beyond = (op.b >> 5) % 4 == 3;
+        const size_t M = (size_t)-1, Q = M / sizeof(T);
+        const size_t BEYOND[] = {Q - 1, Q, Q + 1, (size_t)1 << 62, ((size_t)1 << 63) - 1, (size_t)1 << 63, M / 2 + 7, M - 1, Q - 1 - op.b % 5, ((size_t)1 << 62) + op.b % 3};
+        size_t n = beyond ? BEYOND[(op.b >> 7) % 10] : ((size_t)1 << SH[(op.b >> 5) % 3]) + op.b % 24;
+        // (size_t)-1 itself is not a count: it is ST_AUTO_SIZE, the library's "no size given" (and Q + 1 wraps to 0 for one-byte elements)
+        if (beyond && (n == M || n < ((size_t)1 << 40))) n = M - 1 - op.b % 7;
+        char e[64];
+        if (beyond) std::snprintf(e, sizeof e, "dst=%c,beyond#%u", cl(dst), (unsigned)((op.b >> 7) % 10));
+        else std::snprintf(e, sizeof e, "dst=%c,2^%u+%u", cl(dst), SH[(op.b >> 5) % 3], (unsigned)(op.b % 24));
+        note_sig<T>(c, op, e);
         c.budget_bytes = dst->model.size() * sizeof(T) + 256;
         if (dst->moved_from) c.touched_moved_from = true;
         as_target(dst);
@@ -193,7 +203,7 @@ template <class T> static bool exec_buf_t(Ctx &c, const Op &op) {
             Buf &b = *dst->p();
             b.allocate(n);
             size_ok = b.size() == n;
-            simrt::BlockInfo bi; block_ok = simrt::heap_lookup(b.data(), &bi) && bi.size >= (n + 1) * sizeof(T);
+            simrt::BlockInfo bi; block_ok = n < Q && simrt::heap_lookup(b.data(), &bi) && bi.size >= (n + 1) * sizeof(T);
             term_ok = block_ok && b.data()[n] == T(0);
             if (block_ok) { b.data()[0] = T('h'); b.data()[n - 1] = T('z'); }
             const T *was = b.data();
@@ -203,6 +213,7 @@ template <class T> static bool exec_buf_t(Ctx &c, const Op &op) {
         if (ex == EX_NONE && !(size_ok && block_ok && term_ok && moved_ok))
             set_viol(c, !size_ok ? "value_mismatch" : !block_ok ? "storage_class" : !term_ok ? "terminator_missing" : "value_mismatch",
                      std::string(ET<T>::name()) + ": allocate(" + std::to_string(n) + "): " + (!size_ok ? "size() differs" : !block_ok ? "data() is not the base of a live heap block of n+1 elements" : !term_ok ? "no NUL after the last element" : "the value did not survive a move"));
+        if (beyond && ex == EX_BAD_ALLOC) c.fired = true;      // refused by the language or by the allocator, not by an injected fault: the same contract applies (target old or empty, everything valid)
         if (settle(c, op, ex, 0)) { crossing<T>(c, dst->model.size(), 0); dst->model.clear(); dst->moved_from = true; }
         return true;
     }
